@@ -10,17 +10,18 @@ def _case_key(case, kind):
 
 CFG = {
     "ready": True,
-    "level_text": "Proof of no-drift for the encoder data-path model (C06_no_drift: decode_unfiltered(emit s) = encoder reconstruction, via the frame emit/decode round trip C04_vp8_emit_decode and the macroblock step C06_enc_mb_eq_dec) + executable specification: on every run the encoder's own reconstruction planes (verif hook, serial and parallel encoder paths) are compared bit-exactly with what the extracted RFC 6386 specification decoder (Vp8Spec.decode_unfiltered, written in Gallina, independent of the Go code) reconstructs from the emitted bytes before the loop filter, with the Go decoder's pre-filter planes, and - at FilterStrength 0 - with webp.Decode's planes; dimensions are compared with the source. Coq theorems (all inputs) link the two reconstruction paths at kernel level: encoder inverse transform = decoder inverse DCT + prediction, encoder quantiser step sizes = decoder dequantisation factors for every index and delta, skipped macroblocks reconstruct the prediction, every coded level has exactly one token.",
-    "level_note": "The whole-frame statement no_drift (Vp8EncPath.no_drift_statement) is NOT proved: there is no Gallina model of the encoder's frame loop (mode choice, token recording, context export); it is evaluated by execution on generated pictures x options. Trusted: Coq kernel, extraction, OCaml glue, Go harness, translator, the verif hook returning the encoder planes.",
-    "technique": "executable Gallina specification decoder run on the encoder's output vs the encoder's reconstruction (hook); Rocq proofs of the kernel-level links (finite complete sweeps where tables are involved)",
+    "level_text": "Proof for the encoder data-path model + execution against the code. C06_no_drift: for every well-formed set of encoder choices (header, modes, quantised levels; skip only without levels) whose frame passes the size guards, the RFC 6386 specification decoder (Vp8Spec, Gallina, independent of the Go code) reconstructs from the emitted bytes, before the loop filter, exactly the encoder's reconstruction, with the source's dimensions, and at filter level 0 the decoded picture is that reconstruction. The proof goes through C06_enc_mb_eq_dec (one macroblock: raster levels, setupSegment step sizes, TransformWHT, ITransform onto the prediction, 4x4 blocks in order = decoder-side reconstruction of the recorded syntax), the raster induction, and C04_vp8_emit_decode / C04_bool_roundtrip (bytes of the Go BoolWriter model and assembleFrame layout parse back to the same syntax). On every run three model cases per encoder output tie the model to the Go encoder: the specification decoder's pre-filter planes = the encoder's planes (hook); the model emitter reproduces the encoder's bytes exactly from the choices recovered from them; the encoder reconstruction model on those choices = the encoder's planes. Go-side evaluation adds: Go decoder pre-filter planes = hook planes, webp.Decode = hook planes at FilterStrength 0, dimensions, hook bytes = webp.Encode bytes; serial, forced-parallel, rate-control and pooled wide-then-narrow families.",
+    "level_note": "Proved about the Gallina encoder model (Vp8NoDrift.enc_frame), not about the Go text: how the Go encoder arrives at its choices (analysis, RD search, trellis, rate control, token buffer) is outside the model; that its emission and its reconstruction equal the model's for the choices it made is checked by execution on every generated case (reemit, encrecon), as is the whole property on the code (recon, Go-side comparisons). Trusted: Coq kernel, extraction, OCaml glue, Go harness, translator, the verif hook returning the encoder planes.",
+    "technique": "Rocq proof of no-drift for an encoder data-path model (macroblock step + raster induction + frame emit/decode round trip); extraction-based execution: specification decoder, model emitter and model reconstruction against the Go encoder's bytes and planes (hook)",
     "notes": [
-        "three model cases per encoder output: recon (specification decoder's pre-filter planes of the bytes = hook planes), reemit (Vp8SynParse.parse_syntax recovers header flags, modes and quantised levels from the bytes; Vp8FrameRT.emit_key_frame = syntax emitter + Go BoolWriter model + assembleFrame layout must reproduce the encoder's bytes exactly: ties the emission half of the encoder model to the code), encrecon (Vp8NoDrift.enc_frame, the encoder-side reconstruction model, on the recovered choices = hook planes: ties the reconstruction half).",
+        "three model cases per encoder output: recon (specification decoder's pre-filter planes of the bytes = hook planes), reemit (Vp8SynParse.parse_syntax recovers header flags, modes and quantised levels from the bytes; Vp8FrameRT.emit_key_frame = syntax emitter + Go BoolWriter model + assembleFrame layout must reproduce the encoder's bytes exactly), encrecon (Vp8NoDrift.enc_frame on the recovered choices = hook planes). Quick tier: every stream; thorough tier: reemit/encrecon on every third stream.",
         "generators: pictures x options (serial and forced-parallel), a rate-control family (TargetSize / TargetPSNR x Pass 1,2,3,4,6,10, targets placed around the picture's own size so the search converges early in some runs and runs out of passes in others), and wide-then-narrow encode pairs through the pooled row-parallel state (one goroutine, GC held off, textured content, Method >= 3, >= 4 macroblock rows).",
+        "the four *_partial theorems (C06_itransform_eq_transform_partial, C06_enc_dequant_eq_dec_partial, C06_skip_sound_partial, C06_level_range_partial) are the kernel lemmas used by C06_enc_mb_eq_dec / C06_no_drift; C06_no_drift_nonvacuous exhibits a frame meeting the hypotheses.",
     ],
     "partial": [
-        "C06_no_drift is proved for the encoder data-path MODEL (Vp8NoDrift.enc_frame: choices = header, modes, quantised levels; emission through Vp8FrameRT.emit_key_frame = syntax emitter + Go BoolWriter model + assembleFrame layout; reconstruction by enc_recon_mb in raster order from the encoder's own reconstructed neighbours). What the model abstracts and execution covers instead: how the Go encoder arrives at its choices (analysis, RD search, trellis, rate control), that its token recording equals the model emitter (token_record_eq_emit), that its context fill for prediction equals mk_edges of its own reconstruction (the C06-te7 class), serial_eq_parallel_recon, and the hypotheses wf_frame_syn/choices_ok themselves (levels within +-2114, skip only without levels) are not proved of the Go encoder. The four *_partial theorems are the kernel lemmas the proof uses.",
+        "C06_no_drift is a theorem about the encoder data-path MODEL. Not proved of the Go code and covered by execution instead: that the encoder's token recording / token-buffer replay equals the model emitter (reemit cases), that its context fill for prediction equals mk_edges of its own reconstruction and that the serial and parallel frame loops reconstruct alike (encrecon and recon cases, pooled-pair family), and that its outputs satisfy the hypotheses wf_frame_syn / choices_ok (levels within +-2114, skip only without levels, probabilities bytes).",
     ],
-    "trusted_base": ["modelled, not verified: dsp.iTransformOne, lossy.setupSegment / writeQuantParams; the encoder's frame loop, RD search and token recording are not modelled (validated per run through the hook planes)"],
+    "trusted_base": ["modelled, not verified: dsp.iTransformOne / TransformWHT, lossy.setupSegment / writeQuantParams / reconstructMB / encodeI4Residuals (reconstruction), emitPartition0 / token emission / assembleFrame (emission), bitio.BoolWriter; the encoder's analysis, RD search, trellis, rate control and token buffer are not modelled (their results are the choices)"],
     "assumptions": ["the hook's configuration code (verifLossyConfig) is kept identical to encode.go by the translator (C20's obligation); the hook's bytes are compared with webp.Encode's on every case"],
     "proof_timeout": 2400,
     "case_key": _case_key,
